@@ -247,6 +247,7 @@ def run(res):
         res.count("block_histories_inspected")
     set_tz(rng.choice(TZS))
     wl.run_histories(res, 40 if res.tier == "quick" else 600, oracle)
+    several_writers(res, wl, oracle)
     set_tz("UTC")
     # ---- guard the extraction
     subc = cases[:: max(1, len(cases) // 60)][:60]
@@ -263,6 +264,81 @@ def run(res):
     ]
 
 
+def several_writers(res, wl, oracle):
+    """the layout is a function of (index, rate, cadences) of THE channel: two or three writers of one process,
+    same sample rate and overlapping index ranges but different cadences, written to in turns; every
+    channel is then inspected like a single recording"""
+    import numpy as np
+    rng = res.rng
+    work = common.scratch_dir()
+    for trial in range(12 if res.tier == "quick" else 150):
+        n, d = rng.choice([(100, 1), (200, 3), (1000, 1), (48000, 1), (1000, 7)])
+        cad = [(sc, fc) for sc, fc in [(1, 250), (1, 1000), (2, 400), (3600, 1000), (10, 2500), (1, 20), (2, 100), (3600, 60000)]
+               if 1 <= fc * n // (1000 * d) <= 400]
+        rng.shuffle(cad)
+        cad = cad[:rng.choice([2, 2, 3])]
+        if len(cad) < 2:
+            continue
+        t = 1500000000 * 1000 + rng.choice([0, 1, 999, 3599000])
+        start = cdiv(t * n, 1000 * d)
+        cont = rng.random() < 0.5
+        cfgs = [wl.Cfg(n, d, sc, fc, start + rng.choice([0, 0, 1, 3]), cont, 0, False, "i", 2, "<", False, 1) for sc, fc in cad]
+        dirs = [os.path.join(work, "m%d_%d" % (trial, j), "ch") for j in range(len(cfgs))]
+        for dd in dirs:
+            os.makedirs(dd)
+        ws = [wl.make_writer(c, dd) for c, dd in zip(cfgs, dirs)]
+        turns = []
+        nturn = rng.randrange(6, 16)
+        step = max(1, max(c.per_file() for c in cfgs) // rng.choice([1, 2, 3]))
+        for _ in range(nturn):
+            j = rng.randrange(len(ws))
+            ln = rng.choice([1, step, step + 1, max(1, step - 1), 2 * step + 1])
+            ws[j].rf_write(np.arange(ln, dtype=np.int16))
+            turns.append([j, ln])
+        for w in ws:
+            w.close()
+        res.count("several-writers-in-one-process")
+        for j, (c, dd) in enumerate(zip(cfgs, dirs)):
+            files = wl.dump_files(dd)
+            hist = {"fn": "several-writers", "rate": [n, d], "continuous": cont, "writers": [[x.sc, x.fc, x.start] for x in cfgs],
+                    "turns": turns, "inspected_writer": j}
+            oracle(c, None, None, files, dd, None, None, hist)
+            total = sum(ln for jj, ln in turns if jj == j)
+            stored = sum(f["data"].shape[0] for f in files if not f["tmp"]) if not cont else None
+            if stored is not None and stored != total:
+                res.violation("written-sample-not-stored", "the files of a channel do not hold the number of samples written to it",
+                              hist, total, stored)
+            if any(f["tmp"] for f in files):
+                res.violation("tmp-file-after-close", "a tmp. file is left after close", hist, "none", [f["name"] for f in files if f["tmp"]])
+
+
 def replay(res, rp):
+    i = rp.get("input") or {}
+    if i.get("fn") == "several-writers":
+        common.use_impl()
+        import numpy as np
+        import writerlib as wl
+        n, d = i["rate"]
+        work = common.scratch_dir()
+        cfgs = [wl.Cfg(n, d, sc, fc, st, i["continuous"], 0, False, "i", 2, "<", False, 1) for sc, fc, st in i["writers"]]
+        dirs = [os.path.join(work, "m%d" % j, "ch") for j in range(len(cfgs))]
+        for dd in dirs:
+            os.makedirs(dd)
+        ws = [wl.make_writer(c, dd) for c, dd in zip(cfgs, dirs)]
+        for j, ln in i["turns"]:
+            ws[j].rf_write(np.arange(ln, dtype=np.int16))
+        for w in ws:
+            w.close()
+        bad = 0
+        for j, (c, dd) in enumerate(zip(cfgs, dirs)):
+            for f in wl.dump_files(dd):
+                for r, (g0, o0) in enumerate(f["rows"]):
+                    sp, F, S = spec(0, c.n, c.d, c.sc, c.fc, g0)
+                    ok = (f["subdir"], f["name"]) == (sp[3], sp[4][4:])
+                    print("writer %d (subdir cadence %d s, file cadence %d ms): block at %d in %s/%s%s" %
+                          (j, c.sc, c.fc, g0, f["subdir"], f["name"], "" if ok else "   <-- layout names %s/%s" % (sp[3], sp[4][4:])))
+                    bad += 0 if ok else 1
+        print("replay verdict:", "STILL VIOLATING" if bad else "no longer violating")
+        return 1 if bad else 0
     print("replay input:", rp.get("input"), "expected", rp.get("expected"), "observed-then", rp.get("observed"))
     return 0
